@@ -323,6 +323,18 @@ def trun_bombs(init):
             seg = bytes(isogen.render([moof, isogen.Box("mdat", [isogen.Raw(b"abcd")])]).data)
             out.append(("trun_bomb_%03x_%x" % (flags, count), {"data": init, "frag": seg}))
             out.append(("trun_bomb1_%03x_%x" % (flags, count), {"data": init + seg}))
+    # several track runs in one track fragment: an honest run with per-sample fields next to a run WITHOUT any table that announces a huge sample count
+    # (whatever a reader does with several runs, the count of one run must not size the tables of another)
+    for first_flags in (0x200, 0x100, 0xf00, 0x201):
+        for count in (1 << 16, 1 << 26, (1 << 32) - 1):
+            nper = bin(first_flags & 0xf00).count("1")
+            honest = isogen.full("trun", 0, first_flags, [isogen.F(4, 2)] + ([isogen.F(4, 0)] if first_flags & 1 else []) + [isogen.F(4, 3)] * (2 * nper))
+            bomb = isogen.full("trun", 0, 0, [isogen.F(4, count)])
+            for order, kids in (("hb", [honest, bomb]), ("bh", [bomb, honest]), ("hbh", [honest, bomb, honest])):
+                moof = isogen.Box("moof", [isogen.mfhd(1), isogen.Box("traf", [isogen.tfhd(1), isogen.tfdt(0)] + kids)])
+                seg = bytes(isogen.render([moof, isogen.Box("mdat", [isogen.Raw(b"abcdefgh")])]).data)
+                out.append(("trun_multi_%s_%03x_%x" % (order, first_flags, count), {"data": init, "frag": seg}))
+                out.append(("trun_multi1_%s_%03x_%x" % (order, first_flags, count), {"data": init + seg}))
     return out
 
 
